@@ -6,13 +6,15 @@ import SquidModel.Icap.InvOps
 namespace SquidModel.Icap
 open SquidModel
 
+variable {w : Bool}
+
 /-- what stopSending(nicely) needs: a nicely ended pipe carries a complete message; we are not in the middle of the HTTP head -/
 def StopPre (nicely : Bool) (s : St) : Prop := (nicely = true → s.outSt = .isOpen → EndOk s) ∧ s.parsing ≠ .httpHeader
 
 abbrev Ctl3 := Parsing → Head → Option Nat → Prop
 
 theorem tri_endPipe (n : Bool) (P : Ctl3) :
-    Tri (fun s => (StopPre n s ∧ P s.parsing s.head s.uob) ∧ s.outSt = .isOpen) (endPipe n)
+    Tri w (fun s => (StopPre n s ∧ P s.parsing s.head s.uob) ∧ s.outSt = .isOpen) (endPipe n)
         (fun s => s.ctl (fun p sd h _ u => sd = .done ∧ P p h u)) := by
   apply Tri.atomic
   intro s m a ⟨⟨⟨hend, hp⟩, hP⟩, ho⟩
@@ -32,7 +34,7 @@ theorem tri_endPipe (n : Bool) (P : Ctl3) :
   · exact ⟨rfl, hP⟩
 
 theorem tri_sendingDone (P : Ctl3) :
-    Tri (fun s => s.parsing ≠ .httpHeader ∧ P s.parsing s.head s.uob) (fun s => { s with sending := .done })
+    Tri w (fun s => s.parsing ≠ .httpHeader ∧ P s.parsing s.head s.uob) (fun s => { s with sending := .done })
         (fun s => s.ctl (fun p sd h _ u => sd = .done ∧ P p h u)) := by
   apply Tri.atomic
   intro s m a ⟨hp, hP⟩
@@ -43,7 +45,7 @@ theorem tri_sendingDone (P : Ctl3) :
   · intro (h : s.parsing = .httpHeader); exact absurd h hp
 
 theorem tri_stopSending (n : Bool) (P : Ctl3) :
-    Tri (fun s => StopPre n s ∧ P s.parsing s.head s.uob) (stopSending n) (fun s => s.ctl (fun p sd h _ u => sd = .done ∧ P p h u)) := by
+    Tri w (fun s => StopPre n s ∧ P s.parsing s.head s.uob) (stopSending n) (fun s => s.ctl (fun p sd h _ u => sd = .done ∧ P p h u)) := by
   unfold stopSending
   apply Tri.cond'
   · exact Tri.skip'.weaken (fun _ h => h) (fun s h => ⟨eq_of_beq h.2, h.1.2⟩)
@@ -126,14 +128,14 @@ theorem echoSize_le (s : St) : s.echoSize ≤ s.put - s.vSending.start := by
   unfold St.echoSize; dsimp only; omega
 
 theorem tri_echoCopy (P : Ctl3) :
-    Tri (fun s => EchoQ P s ∧ s.consumed ≤ s.vSending.start ∧ s.vSending.start ≤ s.put) echoCopy (EchoQ P) := by
+    Tri w (fun s => EchoQ P s ∧ s.consumed ≤ s.vSending.start ∧ s.vSending.start ≤ s.put) echoCopy (EchoQ P) := by
   apply Tri.atomic
   intro s m a ⟨⟨hv, ho, ha, hP⟩, hc, hs⟩
-  refine ⟨?_, Aux.of_sameAux (s := s) ⟨rfl, rfl, rfl, rfl, rfl⟩ a, ⟨hv, ho, ha, hP⟩⟩
+  refine ⟨?_, AuxG.of_sameAux (s := s) ⟨rfl, rfl, rfl, rfl, rfl⟩ a, ⟨hv, ho, ha, hP⟩⟩
   have := echoSize_le s
   exact Main.echo m s.echoSize hv hc (by omega) (by rw [ho]; decide)
 
-theorem tri_virginConsume_echoQ (P : Ctl3) : Tri (EchoQ P) virginConsume (EchoQ P) := by
+theorem tri_virginConsume_echoQ (P : Ctl3) : Tri w (EchoQ P) virginConsume (EchoQ P) := by
   apply Tri.frame keeps_virginConsume
   intro s ⟨hv, ho, ha, hP⟩
   have f := fr_virginConsume s
@@ -141,7 +143,7 @@ theorem tri_virginConsume_echoQ (P : Ctl3) : Tri (EchoQ P) virginConsume (EchoQ 
   rw [f.parsing, f.head, f.uob]; exact hP
 
 theorem tri_echoMore (P : Ctl3) :
-    Tri (fun s => P s.parsing s.head s.uob) echoMore (fun s => s.ctl (fun p sd h _ u => (sd = .virgin ∨ sd = .done) ∧ P p h u)) := by
+    Tri w (fun s => P s.parsing s.head s.uob) echoMore (fun s => s.ctl (fun p sd h _ u => (sd = .virgin ∨ sd = .done) ∧ P p h u)) := by
   unfold echoMore
   apply Tri.seq' (Q := EchoQ P)
   · apply Tri.seq' (Q := fun s => EchoQ P s ∧ s.consumed ≤ s.vSending.start ∧ s.vSending.start ≤ s.put)
@@ -167,32 +169,32 @@ theorem tri_echoMore (P : Ctl3) :
         intro hp; have := (a.httpH hp).1; rw [hv] at this; cases this
     · exact Tri.skip'.weaken (fun _ h => h) (fun s h => ⟨Or.inl h.1.1, h.1.2.2.2⟩)
 
-theorem aux_of_done {s : St} (h : s.parsing = .done) : Aux s := by
+theorem aux_of_done {s : St} (h : s.parsing = .done) : AuxG w s := by
   constructor
   · intro h'; rw [h] at h'; cases h'
   · intro h'; rw [h] at h'; cases h'
   · intro h'; rw [h] at h'; cases h'
 
-theorem tri_noBypass (P : Ctl) : Tri (fun s => s.ctl P) noBypassNoRepeat (fun s => s.canStartBypass = false ∧ s.ctl P) := by
+theorem tri_noBypass (P : Ctl) : Tri w (fun s => s.ctl P) noBypassNoRepeat (fun s => s.canStartBypass = false ∧ s.ctl P) := by
   apply Tri.atomic
   intro s m a p
-  exact ⟨keeps_noBypassNoRepeat.1 s m, Aux.of_sameAux (s := s) ⟨rfl, rfl, rfl, rfl, rfl⟩ a, rfl, p⟩
+  exact ⟨keeps_noBypassNoRepeat.1 s m, AuxG.of_sameAux (s := s) ⟨rfl, rfl, rfl, rfl, rfl⟩ a, rfl, p⟩
 
-theorem tri_sendAnswer (P : Ctl) : Tri (fun s => s.canStartBypass = false ∧ s.ctl P) sendAnswer (fun s => s.ctl P) := by
+theorem tri_sendAnswer (P : Ctl) : Tri w (fun s => s.canStartBypass = false ∧ s.ctl P) sendAnswer (fun s => s.ctl P) := by
   apply Tri.atomic
   intro s m a ⟨hb, p⟩
   unfold sendAnswer
   split
   · exact ⟨m, a, p⟩
   · split
-    · exact ⟨m.setAnswer _ (fun _ h => by cases h) hb, Aux.of_sameAux (s := s) ⟨rfl, rfl, rfl, rfl, rfl⟩ a, p⟩
+    · exact ⟨m.setAnswer _ (fun _ h => by cases h) hb, AuxG.of_sameAux (s := s) ⟨rfl, rfl, rfl, rfl, rfl⟩ a, p⟩
     · rename_i hh
-      refine ⟨m.setAnswer _ (fun h => ?_) hb, Aux.of_sameAux (s := s) ⟨rfl, rfl, rfl, rfl, rfl⟩ a, p⟩
-      rw [h] at hh; exact absurd rfl (by simpa using hh)
+      refine ⟨m.setAnswer _ (fun h => ?_) hb, AuxG.of_sameAux (s := s) ⟨rfl, rfl, rfl, rfl, rfl⟩ a, p⟩
+      rw [h] at hh; simp at hh
 
 /-- startSending(): whatever is known about parsing/head/uob stays; a virgin sender may finish -/
 theorem tri_startSending (P : Ctl3) (S : Sending → Prop) (hS : S .virgin → S .done) :
-    Tri (fun s => s.ctl (fun p sd h _ u => S sd ∧ P p h u)) startSending (fun s => s.ctl (fun p sd h _ u => S sd ∧ P p h u)) := by
+    Tri w (fun s => s.ctl (fun p sd h _ u => S sd ∧ P p h u)) startSending (fun s => s.ctl (fun p sd h _ u => S sd ∧ P p h u)) := by
   unfold startSending
   apply Tri.seq' (Q := fun s => s.ctl (fun p sd h _ u => S sd ∧ P p h u))
   · apply Tri.seq' (Q := fun s => s.canStartBypass = false ∧ s.ctl (fun p sd h _ u => S sd ∧ P p h u))
@@ -211,10 +213,69 @@ theorem tri_startSending (P : Ctl3) (S : Sending → Prop) (hS : S .virgin → S
         · rw [hd]; exact ⟨hS h.2.1, h.2.2⟩
     · exact (Tri.must' _).weaken (fun _ h => h) (fun _ h => h.1.1)
 
-theorem keeps_planSending : Keeps planSending := by
+/-- VirginBodyAct::plan(): the act was not disabled, so the adapted pipe (if any) has not ended -/
+theorem tri_planSending (P : Ctl) : Tri w (fun s => s.ctl P) planSending (fun s => s.ctl P) := by
   unfold planSending
-  with_reducible apply keeps_seq
-  · keeps
-  · sorry
+  apply Tri.seq' (Q := fun s => s.ctl P ∧ s.vSending.st ≠ .disabled)
+  · refine (Tri.must' _).weaken (fun _ h => h) (fun s h => ⟨h.1, ?_⟩)
+    have h2 := h.2
+    simp only [Bool.and_eq_true, bne_iff_ne, ne_eq] at h2
+    exact h2.1
+  · apply Tri.atomic
+    intro s m a ⟨p, hd⟩
+    refine ⟨?_, AuxG.of_sameAux (s := s) ⟨rfl, rfl, rfl, rfl, rfl⟩ a, p⟩
+    exact ⟨m.put_le, m.cons_le, m.buf_eq, m.prod_end, m.nopipe, m.hnone, m.clone, m.plain, m.partEcho,
+      fun he => ⟨(m.ended he).clone, (m.ended he).plain, (m.ended he).part⟩, m.byp, m.sendV, m.taken_le,
+      fun h => absurd (m.pipeEnded h) hd⟩
+
+theorem Main.reviveSending {s : St} (m : Main s) (ho : s.outSt = .noPipe) : Main { s with vSending := { s.vSending with st := .undecided } } :=
+  ⟨m.put_le, m.cons_le, m.buf_eq, m.prod_end, m.nopipe, m.hnone, m.clone, m.plain, m.partEcho,
+   fun he => ⟨(m.ended he).clone, (m.ended he).plain, (m.ended he).part⟩, m.byp, m.sendV, m.taken_le,
+   fun h => by rcases h with h | h <;> (rw [ho] at h; cases h)⟩
+
+def CloneQ (s : St) : Prop := s.ctl (fun p _ h o _ => p = .done ∧ h = .virginClone ∧ o = .noPipe)
+
+/-- prepEchoing() with parsing already stopped: the virgin head clone is installed, sending is virgin or done -/
+theorem tri_prepEchoing :
+    Tri w (fun s => s.parsing = .done) prepEchoing (fun s => s.ctl (fun p sd h _ _ => p = .done ∧ h = .virginClone ∧ (sd = .virgin ∨ sd = .done))) := by
+  unfold prepEchoing
+  apply Tri.seq' (Q := CloneQ)
+  · apply Tri.seq' (Q := fun s => s.canStartBypass = false ∧ s.ctl (fun p _ h _ _ => p = .done ∧ h = .none))
+    · apply Tri.seq' (Q := fun s => s.canStartBypass = false ∧ s.ctl (fun p _ _ _ _ => p = .done))
+      · exact (tri_noBypass (fun p _ _ _ _ => p = .done)).weaken (fun _ h => h) (fun _ h => h)
+      · refine (Tri.must' _).weaken (fun _ h => h) (fun s h => ⟨h.1.1, h.1.2, eq_of_beq h.2⟩)
+    · apply Tri.atomic
+      intro s m _ ⟨hb, hp, hh⟩
+      have hp' : s.parsing = .done := hp
+      exact ⟨m.allocClone hh hb, aux_of_done hp', hp', rfl, (m.hnone hh).1⟩
+  · apply Tri.cond'
+    · apply Tri.seq' (Q := fun s => s.ctl (fun p sd h _ _ => p = .done ∧ h = .virginClone ∧ (sd = .virgin ∨ sd = .done)))
+      · apply Tri.seq' (Q := CloneQ)
+        · apply Tri.seq' (Q := CloneQ)
+          · apply Tri.cond'
+            · apply Tri.seq' (Q := CloneQ)
+              · apply Tri.seq' (Q := CloneQ)
+                · exact (Tri.must' _).weaken (fun _ h => h.1.1) (fun _ h => h.1)
+                · apply Tri.cond'
+                  · apply Tri.atomic
+                    intro s m _ ⟨⟨hp, hh, ho⟩, _⟩
+                    have hp' : s.parsing = .done := hp
+                    exact ⟨m.reviveSending ho, aux_of_done hp', hp', hh, ho⟩
+                  · exact Tri.skip'.weaken (fun _ h => h.1) (fun _ h => h)
+              · exact tri_planSending _
+            · exact Tri.skip'.weaken (fun _ h => h.1.1) (fun _ h => h)
+          · exact (Tri.must' _).weaken (fun _ h => h) (fun _ h => h.1)
+        · apply Tri.atomic
+          intro s m _ ⟨hp, hh, _⟩
+          have hp' : s.parsing = .done := hp
+          exact ⟨m.openEchoPipe hh _, aux_of_done hp', hp', hh, Or.inl rfl⟩
+      · exact Tri.ctl keeps_checkConsuming fr_checkConsuming _
+    · refine ((tri_stopSending true (fun p h _ => p = .done ∧ h = .virginClone)).weaken (fun _ h => h) (fun s h => ?_)).pre_inv ?_
+      · exact ⟨h.2.1, h.2.2, Or.inr h.1⟩
+      · intro s _ _ ⟨⟨hp, hh, ho⟩, _⟩
+        have hp' : s.parsing = .done := hp
+        have ho' : s.outSt = .noPipe := ho
+        refine ⟨⟨fun _ h => ?_, by rw [hp']; decide⟩, hp', hh⟩
+        rw [ho'] at h; cases h
 
 end SquidModel.Icap
